@@ -24,7 +24,7 @@ from proto import Atom, enc
 from gen import grammars as G
 from gen import trees as T
 
-LEVEL = "other"
+LEVEL = "proof"
 
 RULE = (
     "cases = solutions of the shipped formalizations: CSV (CSV_GRAMMAR + CSV_COLNO_PROPERTY), XML (grammar with namespace prefixes + "
